@@ -58,9 +58,10 @@ MANIFEST_NOTE = ("Partial by nature: CPython, pybind11 (casting/overload resolut
                  "Four defects found while building the check (negative indices in __setitem__/DynamicVector, FieldVector.copy() returning "
                  "zeros, NumPyVector ignoring strides, TypeError/OverflowError instead of IndexError for indices beyond ssize_t) are repaired "
                  "by fixes/C20_*.patch (applied); the model describes the repaired code. A fifth, latent one (round five): the buffer constructor "
-                 "divides a negative byte stride by the unsigned sizeof(K), so i*stride overflows ssize_t for reversed views (undefined "
-                 "behaviour, right values only through wrap-around; not observable by the differential run) -- "
-                 "fixes/C20_buffer_negative_stride.patch; the generated term is the same before and after the repair.")
+                 "divided a negative byte stride by the unsigned sizeof(K), so i*stride overflowed ssize_t for reversed views (undefined "
+                 "behaviour, right values only through wrap-around; not observable by the differential run) -- repaired by "
+                 "fixes/C20_buffer_negative_stride.patch (applied, 5a41cb5); a revert is reported by the translator + gen_buffer_ctor "
+                 "(the stride is the one expression translated with C++'s signed/unsigned conversions instead of exact integers).")
 TECHNIQUE = ('Lean 4 proof (effect/invariant structure, induction over programs) over a shared-store model of the bindings + translator for the '
              'straight-line lambdas, constants and binding lists + differential '
              'correspondence against freshly rebuilt extension modules (two build variants) with a plain-Python shadow oracle')
@@ -93,9 +94,10 @@ ASSUMPTIONS = [
     "the translator's normalisations are sound only as rewrites of C++ it recognises: substituting a local requires a side-effect-free "
     "initialiser and that neither the local nor anything the initialiser reads is modified later; integral casts are dropped because "
     "every value at those places (sizes, lengths, indices inside the vector) is far inside both ranges; translated integer arithmetic "
-    "is exact, so the unsigned division `strides[0] / sizeof(K)` and its signed repair `/ ssize_t(sizeof(K))` "
-    "(fixes/C20_buffer_negative_stride.patch) give the same generated term -- the theorem describes the signed division; "
-    "`python3 tools/translators/tr_c20.py --selftest` replays 18 respellings that must stay quiet and 33 edits that must not",
+    "is exact except in the stride of the buffer constructor, where signedness is modelled: `strides[0] / sizeof(K)` (unsigned division, "
+    "the defect repaired by fixes/C20_buffer_negative_stride.patch) is emitted as wrapS64((stride0 mod 2^64) / w), which gen_buffer_ctor "
+    "refutes, the repaired `/ ssize_t(sizeof(K))` as the signed division the theorem is about; "
+    "`python3 tools/translators/tr_c20.py --selftest` replays 18 respellings that must stay quiet and 35 edits that must not",
     "CPython 3.11, the vendored pybind11 and NumPy 2.4 are trusted (overload resolution, implicit conversions, buffer protocol, slicing)",
     "extension modules are compiled with g++ -O1 -UNDEBUG without MPI from $VERIF_REPO's current files; JIT module sources come from the "
     "current python/dune/generator code, only the cmake/make step of dune-py is replaced by a direct compiler call",
